@@ -5,6 +5,8 @@ from contracts import spec_sd as SS
 from contracts import spec_sdcodec as SC
 
 FUNCTIONS = [
+    "someip.sd.ServiceAnnouncer.queue_send",
+    "someip.sd.SendCollector.*",
     "someip.sd.ServiceAnnouncer.handle_subscribe",
     "someip.sd.ServiceAnnouncer._send_subscribe_nack",
     "someip.sd.ServiceInstance.handle_subscribe",
@@ -30,5 +32,5 @@ HARNESSES = [
     SA.ob_instance_handle_subscribe,
     SA.ob_announcer_handle_subscribe,
     SS.ob_sd_message_dispatch,
-]
+] + SA.SEND_QUEUE_OBLIGATIONS  # the answer reaches the wire through queue_send: once, to its destination only
 EXPECT_COVERS = {"ob_sd_message_dispatch": ["subscribe"], "ob_announcer_handle_subscribe": ["stop-subscribe", "subscribe"]}
